@@ -98,6 +98,25 @@ type Conn struct {
 	// OnNewImage, if set, is told the image a write transaction is about to
 	// commit, before anything is written.
 	OnNewImage func(im *Image)
+
+	onJournalWrite func(off int64, n int)
+	onJournalSync  func()
+}
+
+func (c *Conn) jwrite(off int64, data []byte) syscall.Errno {
+	e := c.jf.Pwrite(off, data)
+	if e == 0 && c.onJournalWrite != nil {
+		c.onJournalWrite(off, len(data))
+	}
+	return e
+}
+
+func (c *Conn) jsync() syscall.Errno {
+	e := c.jf.Fsync()
+	if e == 0 && c.onJournalSync != nil {
+		c.onJournalSync()
+	}
+	return e
 }
 
 // NewConn creates a connection object; Open must be called before use.
@@ -434,21 +453,21 @@ func (c *Conn) syncJournal(j *jstate, nosync bool) (string, syscall.Errno) {
 	// clobber its first byte so that it can never be mistaken for ours.
 	next := c.sectorAlign(j.off)
 	if b, e := c.jf.Pread(next, 8); e == 0 && len(b) == 8 && string(b) == string(journalMagic) {
-		if e := c.jf.Pwrite(next, []byte{0}); e != 0 {
+		if e := c.jwrite(next, []byte{0}); e != 0 {
 			return "journal-clobber-stale-header", e
 		}
 		c.r.Count("pager.stale-header-clobbered")
 	}
-	if e := c.jf.Fsync(); e != 0 {
+	if e := c.jsync(); e != 0 {
 		return "journal-fsync", e
 	}
 	h := make([]byte, 12)
 	copy(h, journalMagic)
 	binary.BigEndian.PutUint32(h[8:], uint32(j.nRec))
-	if e := c.jf.Pwrite(j.hdrOff, h); e != 0 {
+	if e := c.jwrite(j.hdrOff, h); e != 0 {
 		return "journal-header-sync", e
 	}
-	if e := c.jf.Fsync(); e != 0 {
+	if e := c.jsync(); e != 0 {
 		return "journal-fsync2", e
 	}
 	j.synced = true
@@ -528,7 +547,7 @@ func (c *Conn) WriteTx(prog TxProgram, ref *Image) (res TxResult) {
 		return fail("journal-open", e)
 	}
 	j := &jstate{nonce: 1 + uint32(c.T.Next(1<<30)), origSize: origSize}
-	if e := c.jf.Pwrite(0, c.journalHeader(j, prog.NoSync)); e != 0 {
+	if e := c.jwrite(0, c.journalHeader(j, prog.NoSync)); e != 0 {
 		return fail("journal-header", e)
 	}
 	j.hdrOff, j.off = 0, int64(c.SectorSize)
@@ -610,14 +629,14 @@ func (c *Conn) WriteTx(prog TxProgram, ref *Image) (res TxResult) {
 		}
 		var b4 [4]byte
 		binary.BigEndian.PutUint32(b4[:], pg)
-		if e := c.jf.Pwrite(j.off, b4[:]); e != 0 {
+		if e := c.jwrite(j.off, b4[:]); e != 0 {
 			return fail("journal-pgno", e)
 		}
-		if e := c.jf.Pwrite(j.off+4, orig); e != 0 {
+		if e := c.jwrite(j.off+4, orig); e != 0 {
 			return fail("journal-page", e)
 		}
 		binary.BigEndian.PutUint32(b4[:], journalCksum(orig, j.nonce))
-		if e := c.jf.Pwrite(j.off+4+int64(c.PageSize), b4[:]); e != 0 {
+		if e := c.jwrite(j.off+4+int64(c.PageSize), b4[:]); e != 0 {
 			return fail("journal-cksum", e)
 		}
 		j.off += int64(c.PageSize) + 8
@@ -647,7 +666,7 @@ func (c *Conn) WriteTx(prog TxProgram, ref *Image) (res TxResult) {
 			if !prog.NoSync {
 				j.hdrOff = c.sectorAlign(j.off)
 				j.nRec = 0
-				if e := c.jf.Pwrite(j.hdrOff, c.journalHeader(j, prog.NoSync)); e != 0 {
+				if e := c.jwrite(j.hdrOff, c.journalHeader(j, prog.NoSync)); e != 0 {
 					return fail("journal-header2", e)
 				}
 				j.off = j.hdrOff + int64(c.SectorSize)
@@ -737,7 +756,7 @@ func (c *Conn) finalizeJournal() (string, syscall.Errno) {
 		if e := c.jf.Truncate(0); e != 0 {
 			return "journal-truncate", e
 		}
-		if e := c.jf.Fsync(); e != 0 {
+		if e := c.jsync(); e != 0 {
 			return "journal-fsync3", e
 		}
 		if !c.KeepJFD {
@@ -745,10 +764,10 @@ func (c *Conn) finalizeJournal() (string, syscall.Errno) {
 			c.jf = nil
 		}
 	case ModePersist:
-		if e := c.jf.Pwrite(0, make([]byte, 28)); e != 0 {
+		if e := c.jwrite(0, make([]byte, 28)); e != 0 {
 			return "journal-zero", e
 		}
-		if e := c.jf.Fsync(); e != 0 {
+		if e := c.jsync(); e != 0 {
 			return "journal-fsync3", e
 		}
 		if !c.KeepJFD {
